@@ -137,12 +137,14 @@ def _codec_finish(prop, tier, fam, t0, rule, assumptions, exhaustive_note):
     unknown, hits = vlib.split_known(prop, mine)
     mc = fam.get("mc") or {}
     coverage = {
-        "states": mc.get("states", 0), "transitions": mc.get("transitions", 0),
         "traces_validated_against_impl": fam["cases"] - len({json.dumps(v["case"], sort_keys=True) for v in mine}),
         "evaluations": fam["cases"], "distinct_nontrivial": fam["nontrivial"], "rule": rule,
         "samples": fam["samples"], "kinds": fam.get("kinds"), "exhaustive": False, "exhaustive_note": exhaustive_note,
         "spec_level": {k: mc.get(k) for k in ("name", "ok", "wall_s", "violated")},
     }
+    if mc.get("states"):
+        coverage["states"] = mc["states"]
+        coverage["transitions"] = mc["transitions"]
     vlib.write_evidence(prop, tier, "model_checking", coverage, time.time() - t0, len(unknown), assumptions)
     if mc and not mc.get("ok", True):
         raise vlib.ToolError("spec-level TLC run failed: %s" % mc.get("out_tail", "")[-1500:])
@@ -174,3 +176,22 @@ def _case_replay(prop, path):
 
 
 CHECKS["C15"] = {"run": _c15_run, "replay": _case_replay}
+
+
+def _routing_run(prop, tier):
+    t0 = time.time()
+    fam = fam_codec.routing_family(tier)
+    return _codec_finish(prop, tier, fam, t0,
+        "case = one routing probe (start proxy x slot, following MOVED like a cluster client; executed node observed at the stand-ins) or one "
+        "CLUSTER NODES/SLOTS advertisement, taken on real proxies synchronised by the real coordinator encoder (plain and gzip) from the real broker, "
+        "at quiescent points (after create / failover+replacement / rebalance / re-registration / completed scale-out and scale-in) and at held "
+        "migration phases (PRECHECK held; FINALSWITCH held); slots = every range boundary +-1, midpoints and random slots (thorough: additionally all 16384); "
+        "non-trivial iff taken during a migration phase or needing a redirect",
+        ["the served view recorded from the broker in the same trace is the reference (C01 covers its well-formedness)",
+         "observations taken while some proxy's epoch differs from the served one are skipped (counted as skipped_unsynced)",
+         "key -> slot of probe keys is computed by the harness's own CRC16 (C09 covers the proxy's)"],
+        "all 16384 slots only in the thorough tier's all-slots runs")
+
+
+CHECKS["C02"] = {"run": _routing_run, "replay": _case_replay}
+CHECKS["C14"] = {"run": _routing_run, "replay": _case_replay}
